@@ -81,7 +81,26 @@ theorem reencode_event (e : Ev) (h : simple e = true) (st : EncSt) (hst : st.try
     cases b <;> simp [renorm, encodeFrom, encodeEv, hst]
   case bigInt o =>
     cases o with
-    | some i => simp [simple] at h
+    | some i =>
+      simp only [encodeEv] at henc
+      have hb : bs = (encBigInt i).1 := by simp at henc; exact henc.symm
+      subst hb
+      rw [encBigInt_bytes]
+      simp only [renorm]
+      by_cases h64 : i.natAbs < 2 ^ 64
+      · simp only [h64, if_true]
+        by_cases h0 : 0 ≤ i
+        · simp only [h0, if_true]
+          rw [encodeFrom_single st _ _ (posInt_reencode' i.natAbs st)]
+          exact ⟨rfl, rfl, hst⟩
+        · simp only [h0, if_false]
+          rw [encodeFrom_single st _ _ (negInt_reencode' i.natAbs h64 st)]
+          exact ⟨rfl, rfl, hst⟩
+      · simp only [h64, if_false]
+        have he : encodeEv st (Ev.bigInt (some i)) = .ok (st, (encBigInt i).1) := rfl
+        rw [encodeFrom_single st _ _ he, encBigInt_bytes]
+        simp only [h64, if_false]
+        exact ⟨trivial, trivial, hst⟩
     | none => simp [encodeEv] at henc; subst henc; simp [renorm, encodeFrom, encodeEv, hst]
   case comment m s =>
     simp [encodeEv] at henc; subst henc; simp [renorm, encodeFrom, hst]
@@ -141,7 +160,7 @@ theorem encodeFrom_simple_state : ∀ (l : List Ev) (st st' : EncSt), l.all simp
       case bigInt o =>
         cases o with
         | none => simp [encodeEv] at henc henc'; rw [← henc, ← henc']
-        | some i => simp [simple] at h
+        | some i => simp [encodeEv] at henc henc'; rw [← henc, ← henc']
       all_goals first
         | (simp [simple] at h; done)
         | (simp [encodeEv] at henc henc'; rw [← henc, ← henc'])
